@@ -545,6 +545,13 @@ def validate_args_item():
             "Definition gen_validate_args (this_commit at_least_some again uses_git has_commit : bool) : option (list N) := %s.\n" % expr)
 
 
+def _is_logging(st):
+    """`logger.debug(...)` and friends as a statement: no effect on the decision being translated"""
+    return (isinstance(st, ast.Expr) and isinstance(st.value, ast.Call) and isinstance(st.value.func, ast.Attribute)
+            and st.value.func.attr in ("debug", "info", "warning", "error", "exception", "log")
+            and isinstance(st.value.func.value, ast.Name) and st.value.func.value.id in ("logger", "logging", "_logger", "log", "LOGGER"))
+
+
 def finish_item():
     """RunTaskExecutable.finish_execution: the effects in program order -- which record files are written, when the
     non-zero exit status raises, when the version's row is inserted and committed.  Effect codes: 1 args.json,
@@ -568,7 +575,7 @@ def finish_item():
             return "[]"
         st, rest = stmts[0], stmts[1:]
         src = ast.unparse(st)
-        if isinstance(st, ast.Assert) or (isinstance(st, ast.Expr) and src in ignore):
+        if isinstance(st, ast.Assert) or (isinstance(st, ast.Expr) and src in ignore) or _is_logging(st):
             return block(rest)
         if isinstance(st, ast.Expr) and isinstance(st.value, ast.Call):
             for prefix, code in calls:
@@ -648,6 +655,8 @@ def combine_item():
             raise Unsupported("a path through the loop body ends without continue / raise / symlink_to")
         st, rest = stmts[0], stmts[1:]
         src = ast.unparse(st)
+        if _is_logging(st):
+            return block(rest, unlinked)
         if isinstance(st, ast.Continue):
             return "0%N"
         if isinstance(st, ast.Raise):
@@ -701,6 +710,8 @@ def gc_item():
             return action
         st, rest = stmts[0], stmts[1:]
         src = ast.unparse(st)
+        if _is_logging(st):
+            return block(rest, action)
         if isinstance(st, ast.Continue):
             return action
         if isinstance(st, ast.Assign) and len(st.targets) == 1 and isinstance(st.targets[0], ast.Name) and st.targets[0].id in ignore_targets:
@@ -776,7 +787,7 @@ def restore_item():
             if isinstance(st, ast.Assign) and len(st.targets) == 1 and isinstance(st.targets[0], ast.Name) and st.targets[0].id in plain_assign \
                     and not any(isinstance(n, ast.Call) and ast.unparse(n.func) not in ("pathlib.Path", "f.task_output_dir") for n in ast.walk(st.value)):
                 continue
-            if isinstance(st, ast.Raise):
+            if isinstance(st, ast.Raise) or _is_logging(st):
                 continue
             raise Unsupported("statement outside the supported fragment: %s" % src.splitlines()[0])
         return pre, body, post
